@@ -418,11 +418,87 @@ fn check_big(c: &BigCase, ctx: &Ctx) -> Outcome {
 
 const BIG_RULE: &str = "generated: unambiguous tables of 2..70 samples (half of them on and next to 8,16,32,64) x 255..10001 rows (on and next to 256, 1000, 1024, 10000; in a third of the cases every row variable and unfiltered, so that exactly that many rows are compared; constant, constant with gaps, one deviating sample at any column, two alleles split at a column, random with generated gap density), k=17 / k=35, written through the public API; min-freq selectors as in the inproc stage; half of the cases through ska distance with --threads in {1,2,3,4,8,16}. Oracle: every line == model (pairs in order, SNP count, mismatch proportion). Every case non-trivial (hundreds of pairs with SNPs and mismatches).";
 
+// ---- long, nearly identical genomes: mismatch proportions below the printed precision ----
+
+#[derive(Clone, Debug, Serialize, Deserialize)]
+pub struct LongCase {
+    pub seed: u64,
+    pub len: usize,
+    pub k_sel: u8,
+    /// bases missing at the end of the shortened sample (1..=3)
+    pub trim: u8,
+    /// the third sample's substitution is the middle base of the window that ends `back` bases before the end
+    pub back: u8,
+    pub order: u8,
+    pub threads: u8,
+}
+
+fn long_strategy() -> BoxedStrategy<LongCase> {
+    (any::<u64>(), 205_000usize..320_000, 0u8..3, prop_oneof![3 => Just(1u8), 1 => 2u8..=3], prop_oneof![1 => Just(0u8), 1 => 1u8..4], 0u8..6, prop::sample::select(vec![1u8, 2, 4]))
+        .prop_map(|(seed, len, k_sel, trim, back, order, threads)| LongCase { seed, len, k_sel, trim, back, order, threads })
+        .boxed()
+}
+
+fn long_samples_k(c: &LongCase) -> usize {
+    [31usize, 21, 35][c.k_sel as usize % 3]
+}
+
+fn long_samples(c: &LongCase) -> (usize, Vec<Sample>) {
+    let k = [31usize, 21, 35][c.k_sel as usize % 3];
+    let h = (k - 1) / 2;
+    let mut x = c.seed | 1;
+    let g: Vec<u8> = (0..c.len).map(|_| { x = crate::engine::splitmix64(x); model::BASES[(x >> 40) as usize & 3] }).collect();
+    let short = g[..g.len() - c.trim as usize].to_vec();
+    let mut snp = g.clone();
+    let p = g.len() - 1 - c.back as usize - h;
+    snp[p] = model::BASES[(model::BASES.iter().position(|b| *b == snp[p]).unwrap() + 1 + (c.seed % 3) as usize) % 4];
+    let three = [("full".to_string(), vec![g]), ("short".to_string(), vec![short]), ("snp".to_string(), vec![snp])];
+    const PERMS: [[usize; 3]; 6] = [[0, 1, 2], [0, 2, 1], [1, 0, 2], [1, 2, 0], [2, 0, 1], [2, 1, 0]];
+    (k, PERMS[c.order as usize % 6].iter().map(|i| three[*i].clone()).collect())
+}
+
+fn check_long(c: &LongCase, ctx: &Ctx) -> Outcome {
+    let (k, samples) = long_samples(c);
+    let (_d, t) = model_table(&samples, k, true);
+    if t.rows.values().flatten().any(|b| model::sym_is_ambig(*b)) {
+        return Outcome::Reject("table has ambiguity codes (outside the property's domain)".into());
+    }
+    let exp = model_distance(&t, 0);
+    let dir = ctx.case_dir();
+    let r: Result<(), Outcome> = (|| {
+        must_ok(&build(ctx, &dir, "x", &samples, k, true, 1), "ska build")?;
+        let ts = c.threads.to_string();
+        let mut args: Vec<&str> = vec!["distance", "x.skf", "--min-freq", "0"];
+        if c.threads > 1 {
+            args.push("--threads");
+            args.push(&ts);
+        }
+        let o = run_ska(ctx, &dir, &args);
+        must_ok(&o, &format!("ska {}", args.join(" ")))?;
+        let got = parse_dist(&o.out_str()).map_err(Outcome::Fail)?;
+        check_values(&got).map_err(Outcome::Fail)?;
+        compare(&got, &exp, "distance table").map_err(Outcome::Fail)
+    })();
+    ctx.done(&dir);
+    match r {
+        Err(Outcome::Fail(m)) => Outcome::Fail(format!("k={k} three genomes of {} bases from seed {} (full; without its last {} bases; with one substitution {} bases before the last window's middle), order {:?}: {m}; expected {:?}", c.len, c.seed, c.trim, c.back, samples.iter().map(|s| s.0.clone()).collect::<Vec<_>>(), exp)),
+        Err(o) => o,
+        Ok(()) => {
+            let tiny = exp.iter().any(|l| { let f: Vec<&str> = l.split('\t').collect(); f[2] == "0.00" && f[3] == "0.00000" });
+            let mut cl = vec![];
+            if tiny { cl.push("pair_printed_as_0.00_0.00000_although_not_identical"); }
+            if c.back < c.trim { cl.push("substitution_in_a_kmer_the_short_sample_lacks"); }
+            pass(true, key_of(&(c.seed, c.len, c.k_sel, c.trim, c.back, c.order)), cl)
+        }
+    }
+}
+
 fn stages(tier: Tier) -> Vec<Box<dyn Stage>> {
     vec![
         gen_stage_show("inproc", RULE, tier.pick(12_000, 200_000), 1500, case_strategy, |c, ctx| check(c, ctx, false), show),
         gen_stage_show("cli", RULE, tier.pick(1600, 20_000), 200, case_strategy, |c, ctx| check(c, ctx, true), show),
         gen_stage_show("wide_and_long", BIG_RULE, tier.pick(160, 2400), 20, big_strategy, check_big, |c| { let (k, n, rows) = big_dims(c); json!({"k": k, "samples": n, "rows": rows, "salt": c.salt, "threads": c.threads, "via_cli": c.via_cli}) }),
+        gen_stage_show("long_near_identical", "generated: three genomes of 205000-320000 random bases at k = 31, 21 or 35 (a full one, the same without its last 1-3 bases, the same with one substitution at the middle of one of the last four windows) in a generated order, ska build + ska distance --min-freq 0 with 1/2/4 threads; == model (cases with a stored ambiguity code rejected). The mismatch proportion between the full and the shortened genome is below the printed precision. Every case non-trivial.", tier.pick(12, 80), 3, long_strategy, check_long, |c| json!({"seed": c.seed, "len": c.len, "k": long_samples_k(c), "trim": c.trim, "back": c.back, "order": c.order, "threads": c.threads})),
         gen_stage_show("built", "generated: 2-8 related genomes through ska build (tables with ambiguity codes rejected as outside the domain), ska distance -o file with generated min-freq/threads; == model. Non-trivial: a pair with both a SNP and a k-mer mismatch.", tier.pick(640, 8000), 150, built_strategy, check_built, |c| json!({"k": c.set.k, "samples": c.set.samples.len()})),
     ]
 }
